@@ -2,6 +2,7 @@ package rules
 
 import (
 	"fmt"
+	"go/token"
 	"go/types"
 	"strings"
 
@@ -15,8 +16,8 @@ func init() {
 	Registry["C20"] = c20
 	Metas["C20"] = Meta{Level: "other", NeedCG: true,
 		Technique: "static analysis: edge-dominance / all-paths predicates on the admission gates, closure free-variable provenance for the authority set, seal/open-nonce pairing on every path, copy-count dataflow of io.Reader implementations, bound-before-slice on frame lengths",
-		Explain: "Static analysis of the p2p transport and admission code. Decided: (R1) Switch.AddPeerWithConnection adds a peer only after, on every path, the address filter, the secret-connection handshake (when enabled), the refuse-list filter, the public-key filter, the node handshake (which includes the certificate-authority check), the announced-key==authenticated-key test, the self test and the data exchange all passed; peers.Add has no other caller; every failing gate closes the connection; (R2) the CA filter reads the CURRENT validator set each time it runs (the ** is dereferenced inside the closure); the refuse-list filter queries the list at call time; (R3) every secretbox.Seal/Open with the connection's nonce is followed on all success paths by the two-step nonce increment, a failed Open returns an error without incrementing, the two directions start from nonces that differ, and incr2Nonce steps by two; (R4) every Read(p []byte) in p2p/types returns, on each path, the count produced by the copy into p on that path; (R5) the remote identity is stored only after the challenge signature verified under that key, and the challenge derives from both ephemeral keys; (R6) the chunk length is bounded before the frame is sliced; the receive-capacity check precedes reassembly; (R7) nextMsgPacket marks EOF exactly when the remainder fits one packet and the receiver returns the buffer exactly on EOF. NOT decided: cryptographic strength, behaviour under tampering at run time.",
-		Assume: []string{"NaCl secretbox/box are secure", "go-crypto VerifyBytes is sound"},
+		Explain:   "Static analysis of the p2p transport and admission code. Decided: (R1) Switch.AddPeerWithConnection adds a peer only after, on every path, the address filter, the secret-connection handshake (when enabled), the refuse-list filter, the public-key filter, the node handshake (which includes the certificate-authority check), the announced-key==authenticated-key test, the self test and the data exchange all passed; peers.Add has no other caller; every failing gate closes the connection; (R2) the CA filter reads the CURRENT validator set each time it runs (the ** is dereferenced inside the closure); the refuse-list filter queries the list at call time; (R3) every secretbox.Seal/Open with the connection's nonce is followed on all success paths by the two-step nonce increment, a failed Open returns an error without incrementing, the two directions start from nonces that differ, and incr2Nonce steps by two; (R4) every Read(p []byte) in p2p/types returns, on each path, the count produced by the copy into p on that path; (R5) the remote identity is stored only after the challenge signature verified under that key, and the challenge derives from both ephemeral keys; (R6) the chunk length is bounded before the frame is sliced; the receive-capacity check precedes reassembly; (R7) nextMsgPacket marks EOF exactly when the remainder fits one packet and the receiver returns the buffer exactly on EOF. NOT decided: cryptographic strength, behaviour under tampering at run time.",
+		Assume:    []string{"NaCl secretbox/box are secure", "go-crypto VerifyBytes is sound"},
 	}
 }
 
@@ -58,32 +59,52 @@ func c20R1(c *Ctx) {
 		pred func(g map[string]bool) bool
 	}{
 		{"FilterConnByAddr", func(g map[string]bool) bool {
-			return has(g, func(s string) bool { return strings.HasPrefix(s, "(gemmill/p2p.(*Switch).FilterConnByAddr(a0,") && strings.HasSuffix(s, " == nil)") })
+			return has(g, func(s string) bool {
+				return strings.HasPrefix(s, "(gemmill/p2p.(*Switch).FilterConnByAddr(a0,") && strings.HasSuffix(s, " == nil)")
+			})
 		}},
 		{"MakeSecretConnection-if-auth_enc", func(g map[string]bool) bool {
-			return has(g, func(s string) bool { return strings.HasPrefix(s, "!github.com/spf13/viper.(*Viper).GetBool(a0.config,") }) ||
-				has(g, func(s string) bool { return strings.HasPrefix(s, "(gemmill/p2p.MakeSecretConnection(a1,a0.nodePrivKey)#1 == nil)") })
+			return has(g, func(s string) bool {
+				return strings.HasPrefix(s, "!github.com/spf13/viper.(*Viper).GetBool(a0.config,")
+			}) ||
+				has(g, func(s string) bool {
+					return strings.HasPrefix(s, "(gemmill/p2p.MakeSecretConnection(a1,a0.nodePrivKey)#1 == nil)")
+				})
 		}},
 		{"FilterConnByRefuselist", func(g map[string]bool) bool {
-			return has(g, func(s string) bool { return strings.HasPrefix(s, "(gemmill/p2p.(*Switch).FilterConnByRefuselist(a0,") && strings.HasSuffix(s, " == nil)") })
+			return has(g, func(s string) bool {
+				return strings.HasPrefix(s, "(gemmill/p2p.(*Switch).FilterConnByRefuselist(a0,") && strings.HasSuffix(s, " == nil)")
+			})
 		}},
 		{"FilterConnByPubKey", func(g map[string]bool) bool {
-			return has(g, func(s string) bool { return strings.HasPrefix(s, "(gemmill/p2p.(*Switch).FilterConnByPubKey(a0,") && strings.HasSuffix(s, " == nil)") })
+			return has(g, func(s string) bool {
+				return strings.HasPrefix(s, "(gemmill/p2p.(*Switch).FilterConnByPubKey(a0,") && strings.HasSuffix(s, " == nil)")
+			})
 		}},
 		{"peerHandshake", func(g map[string]bool) bool {
-			return has(g, func(s string) bool { return strings.HasPrefix(s, "(gemmill/p2p.peerHandshake(") && strings.HasSuffix(s, "#1 == nil)") })
+			return has(g, func(s string) bool {
+				return strings.HasPrefix(s, "(gemmill/p2p.peerHandshake(") && strings.HasSuffix(s, "#1 == nil)")
+			})
 		}},
 		{"announced-key==authenticated-key-if-auth_enc", func(g map[string]bool) bool {
 			// config reads are treated as stable within one call: a path that takes the false edge of the
 			// auth_enc test skipped the comparison legitimately
-			return has(g, func(s string) bool { return strings.HasPrefix(s, "!github.com/spf13/viper.(*Viper).GetBool(a0.config,") }) ||
-				has(g, func(s string) bool { return strings.Contains(s, "#0.PubKey.Equals(") && strings.Contains(s, ".RemotePubKey(") && !strings.HasPrefix(s, "!") })
+			return has(g, func(s string) bool {
+				return strings.HasPrefix(s, "!github.com/spf13/viper.(*Viper).GetBool(a0.config,")
+			}) ||
+				has(g, func(s string) bool {
+					return strings.Contains(s, "#0.PubKey.Equals(") && strings.Contains(s, ".RemotePubKey(") && !strings.HasPrefix(s, "!")
+				})
 		}},
 		{"not-self", func(g map[string]bool) bool {
-			return has(g, func(s string) bool { return strings.HasPrefix(s, "!") && strings.Contains(s, "#0.PubKey.Equals(a0.nodeInfo.PubKey)") })
+			return has(g, func(s string) bool {
+				return strings.HasPrefix(s, "!") && strings.Contains(s, "#0.PubKey.Equals(a0.nodeInfo.PubKey)")
+			})
 		}},
 		{"exchangeData", func(g map[string]bool) bool {
-			return has(g, func(s string) bool { return strings.HasPrefix(s, "(gemmill/p2p.exchangeData(") && strings.HasSuffix(s, " == nil)") })
+			return has(g, func(s string) bool {
+				return strings.HasPrefix(s, "(gemmill/p2p.exchangeData(") && strings.HasSuffix(s, " == nil)")
+			})
 		}},
 	}
 	for _, gt := range gates {
@@ -162,6 +183,22 @@ func c20R2(c *Ctx) {
 		if n == 0 {
 			c.R.Undecided(rule, "authByCA:closure", c.P.Pos(f.F.Pos()), fname(f), "no closure returned")
 		}
+		// nothing is read through the ** when the filter is built: every such read is a snapshot
+		var early ssa.Instruction
+		for _, b := range f.F.Blocks {
+			for _, ins := range b.Instrs {
+				if ld, ok := ins.(*ssa.UnOp); ok && ld.Op == token.MUL && f.Live(ins) {
+					if exprOf(ld.X) == "a1" && ld.X.Type().String() == f.F.Params[1].Type().String() {
+						early = ins
+					}
+				}
+			}
+		}
+		pos := c.P.Pos(f.F.Pos())
+		if early != nil {
+			pos = c.Pos(early)
+		}
+		c.R.Ob(rule, "authByCA:no-read-of-**validators-at-construction", early == nil, pos, fname(f), "the validator set (and anything derived from it, e.g. the CA keys) read while the filter is built is a snapshot of node start-up; authorities added or removed by the chain later are not seen")
 		// call site passes the address of the live field
 		for _, s := range c.AllCalls(cfgx.Named("gemmill.authByCA")) {
 			c.R.Ob(rule, "authByCA:arg=&stateM.Validators", strings.HasSuffix(cfgx.AddrExpr(s.Call.Common().Args[1]), ".Validators"), c.Pos(s.Call), fname(s.Fn), "got "+cfgx.AddrExpr(s.Call.Common().Args[1]))
